@@ -12,15 +12,19 @@ import (
 
 	v2 "mosn.io/mosn/pkg/config/v2"
 	"mosn.io/mosn/pkg/metrics"
+	"mosn.io/mosn/pkg/types"
+	"mosn.io/mosn/pkg/upstream/cluster"
 	"verif/e2e"
 	"verif/gate"
 	"verif/vh"
 )
 
 type op struct {
-	Op  string `json:"op"`
-	R   int    `json:"r"`
-	How string `json:"how"`
+	Op   string `json:"op"`
+	R    int    `json:"r,omitempty"`
+	How  string `json:"how,omitempty"`
+	Kind string `json:"kind,omitempty"` // update: primary | andhosts
+	To   string `json:"to,omitempty"`   // update: same | up | down | off | on
 }
 type hcase struct {
 	Ops []op `json:"ops"`
@@ -42,6 +46,72 @@ type live struct {
 }
 
 func isRetry(how string) bool { return how == "retryok" || how == "retry2ok" }
+
+// moveThreshold is what a cluster update of class `to` does to one threshold: cur is the value in force, base the
+// value the cluster was configured with at start-up, on the value a resource without a configured threshold is
+// switched on with.
+func moveThreshold(to string, cur, base, on uint32) uint32 {
+	switch to {
+	case "up":
+		if cur != 0 {
+			return cur + 1
+		}
+	case "down":
+		if cur > 1 {
+			return cur - 1
+		}
+	case "off":
+		return 0
+	case "on":
+		if base != 0 {
+			return base
+		}
+		return on
+	}
+	return cur
+}
+
+// publishCluster sends a cluster configuration of the same name, type and addresses through the cluster manager:
+// kind "primary" = AddOrUpdatePrimaryCluster (the new cluster inherits the host objects of the old one), "andhosts" =
+// AddOrUpdateClusterAndHost (new host objects for the same addresses).
+func publishCluster(kind string, spec e2e.ClusterSpec) {
+	c := e2e.BuildClusters([]e2e.ClusterSpec{spec})[0]
+	ad := cluster.GetClusterMngAdapterInstance()
+	if kind == "andhosts" {
+		vh.Must(ad.TriggerClusterAndHostsAddOrUpdate(c, c.Hosts), "cluster and hosts update")
+		return
+	}
+	vh.Must(ad.TriggerClusterAddOrUpdate(c), "cluster update")
+}
+
+// contain makes a history start from clean books: if the books the cluster exposes are not zero although the proxy is idle
+// (already reported by the sample taken just before), they are set back through types.Resource.UpdateCur, so that one
+// broken history is reported once and not again by every later history on the same cluster.
+func contain(name string) bool {
+	snap := cluster.GetClusterMngAdapterInstance().GetClusterSnapshot(nil, name)
+	if snap == nil {
+		return false
+	}
+	rm := snap.ClusterInfo().ResourceManager()
+	dirty := false
+	for _, r := range []types.Resource{rm.Requests(), rm.Retries(), rm.Connections(), rm.PendingRequests()} {
+		if r.Cur() != 0 {
+			r.UpdateCur(0)
+			dirty = true
+		}
+	}
+	return dirty
+}
+
+// thresholds in force according to the cluster the cluster manager exposes NOW under this name
+func maxNow(name string) (req, retry, conn int64) {
+	snap := cluster.GetClusterMngAdapterInstance().GetClusterSnapshot(nil, name)
+	if snap == nil {
+		return -1, -1, -1
+	}
+	rm := snap.ClusterInfo().ResourceManager()
+	return int64(rm.Requests().Max()), int64(rm.Retries().Max()), int64(rm.Connections().Max())
+}
 
 // dsClient is the downstream side of one request (raw HTTP/1, HTTP/2 or bolt connection).
 type dsClient interface {
@@ -80,6 +150,8 @@ func main() {
 	cfgs := []clusterCfg{{"u00", 0, 0}, {"u20", 2, 0}, {"u21", 2, 1}, {"u11", 1, 1}}
 	ups := map[string]upstream{}
 	specs := []e2e.ClusterSpec{}
+	specOf := map[string]e2e.ClusterSpec{}
+	updated := map[string]bool{} // clusters whose thresholds may differ from the configured ones
 	routes := []e2e.RouteSpec{}
 	for _, c := range cfgs {
 		var addr string
@@ -96,6 +168,7 @@ func main() {
 		}
 		defer ups[c.name].Close()
 		specs = append(specs, e2e.ClusterSpec{Name: c.name, Hosts: []string{addr}, MaxRequests: c.maxReq, MaxRetries: c.maxRetry})
+		specOf[c.name] = specs[len(specs)-1]
 		rs := e2e.RouteSpec{Prefix: "/" + c.name + "/", Cluster: c.name, RetryOn: true, NumRetries: 2}
 		if *proto == "bolt" { // xprotocol requests are routed by a header
 			cn := c.name
@@ -139,9 +212,10 @@ func main() {
 			}
 			time.Sleep(10 * time.Millisecond)
 		}
+		mr, mt, _ := maxNow(c.name)
 		tr.Emit(vh.Ev{"ev": "sample", "why": why, "inflight": inflight, "requests": r["requests"], "pending": r["pending"],
 			"retries": r["retries"], "connections": r["connections"], "up_req_active": r["up_req_active"], "ds_active": ds,
-			"up_conn_active": r["up_conn_active"], "conns_truth": truth})
+			"up_conn_active": r["up_conn_active"], "conns_truth": truth, "max_requests": mr, "max_retries": mt})
 	}
 	waitArrival := func(tok string, behave string, d time.Duration) bool {
 		dl := time.Now().Add(d)
@@ -212,10 +286,18 @@ func main() {
 		for i := 0; i < 100 && dsActive() != 0; i++ {
 			time.Sleep(10 * time.Millisecond)
 		}
+		if updated[c.name] { // a previous history left other thresholds: back to the configured ones (while idle)
+			publishCluster("primary", specOf[c.name])
+			updated[c.name] = false
+		}
 		tr.Emit(vh.Ev{"ev": "run", "cluster": c.name, "maxreq": c.maxReq, "maxretry": c.maxRetry, "ops": hc.Ops, "proto": *proto})
 		sample(c, 0, "start")
+		if contain(c.name) {
+			tr.Emit(vh.Ev{"ev": "note", "what": "books of an idle cluster were not zero: set back before the history starts", "cluster": c.name})
+		}
 		reqs = map[int]*live{}
 		inflight = 0
+		nowReq, nowRetry := c.maxReq, c.maxRetry
 		for _, o := range hc.Ops {
 			switch o.Op {
 			case "start":
@@ -307,6 +389,17 @@ func main() {
 				}
 				settle()
 				sample(c, inflight, "after-start")
+			case "update":
+				// cluster configuration update through the cluster manager while `inflight` requests are held upstream
+				settle()
+				nowReq, nowRetry = moveThreshold(o.To, nowReq, c.maxReq, 2), moveThreshold(o.To, nowRetry, c.maxRetry, 1)
+				sp := specOf[c.name]
+				sp.MaxRequests, sp.MaxRetries = nowReq, nowRetry
+				publishCluster(o.Kind, sp)
+				updated[c.name] = true
+				tr.Emit(vh.Ev{"ev": "update", "kind": o.Kind, "to": o.To, "maxreq": nowReq, "maxretry": nowRetry})
+				settle()
+				sample(c, inflight, "after-update:"+o.Kind+":"+o.To)
 			case "finish":
 				lv := reqs[o.R]
 				if lv == nil || lv.done {
